@@ -26,7 +26,10 @@ func main() {
 		runHost(p)
 		return
 	}
-	verifOrigMain()
+	if dl := simrt.RunWorld(verifOrigMain); dl != "" {
+		fmt.Fprintln(os.Stderr, "verif:", dl)
+		simrt.Exit(98)
+	}
 	simrt.Exit(0)
 }
 
